@@ -94,7 +94,7 @@ def frame_spec_st(draw, big=True, header_only_weight=1):
             info = lit[:room]
         else:
             info = expand_payload(mode, min(length, room), seed)
-        if draw(st.integers(0, 30)) == 0 and big:
+        if big and draw(st.integers(0, 30)) == 30:
             info = expand_payload("dense" if mode == "dense" else "random", room, seed)  # exactly the 2047-octet maximum
     return {"ftype": ftype, "seg": seg, "dest": dest, "src": src, "control": control, "info": info}
 
